@@ -1285,7 +1285,25 @@ def find_compare(fdef, left_text):
 def formulas(gen, nj, upgma):
     out = []
 
+    def auto(e, arity):
+        """the local variables of a formula, in order of first occurrence (their names do not matter)"""
+        seen = []
+        for n in ast.walk(e):
+            pass
+        def walk(x):
+            if isinstance(x, ast.Name):
+                if x.id not in seen:
+                    seen.append(x.id)
+            for c in ast.iter_child_nodes(x):
+                walk(c)
+        walk(e)
+        if len(seen) != arity:
+            raise Unsupported("formula %s has %d variables, expected %d" % (ast.unparse(e), len(seen), arity))
+        return seen, {n: n for n in seen}
+
     def define(name, params, e, names):
+        if names is None:
+            params, names = auto(e, len(params))
         out.append("Definition %s %s: Q := %s%%Q." % (name, "".join("(%s : Q) " % p for p in params), qexpr(e, names)))
 
     # --- nj_tree ---
@@ -1298,7 +1316,7 @@ def formulas(gen, nj, upgma):
         raise Unsupported("nj_tree: selection comparison is not `qvalue < min_q`")
     out.append("Definition NJ_better (qvalue min_q : Q) : bool := if Qlt_le_dec qvalue min_q then true else false.")
     dist = find_assign(nj, "dist")      # 0.5 * (v1 - v3), v1 = sum of node._nj_distances[node_to_join], v3 = d(j0, j1)
-    define("NJ_dist", ["v1", "v3"], dist.value, {"v1": "v1", "v3": "v3"})
+    define("NJ_dist", ["v1", "v3"], dist.value, None)
     v1b = find_assign(nj, "v1", 2)      # 0.5 * d(j0, j1)
     v4 = find_assign(nj, "v4")
     df = find_assign(nj, "delta_f")
@@ -1326,7 +1344,7 @@ def formulas(gen, nj, upgma):
     halves = [st for st in ifn.orelse if isinstance(st, ast.Assign) and ast.unparse(st.targets[0]).endswith(".edge.length")]
     if len(halves) != 2 or ast.unparse(halves[0].value) != ast.unparse(halves[1].value):
         raise Unsupported("nj_tree: two-node branch")
-    define("NJ_half", ["d"], halves[0].value, {"d": "d"})
+    define("NJ_half", ["d"], halves[0].value, None)
     # node._nj_xsub += dist ; for node_to_join in nodes_to_join: node._nj_xsub -= node_to_join._nj_distances[node]
     augs = sorted([nd for nd in ast.walk(nj) if isinstance(nd, ast.AugAssign) and ast.unparse(nd.target) == "node._nj_xsub"],
                   key=lambda nd: nd.lineno)
@@ -1349,7 +1367,7 @@ def formulas(gen, nj, upgma):
     out.append("Definition NJ_xsub_update (x dist b0 b1 : Q) : Q := %s%%Q." % expr)
     # --- upgma_tree ---
     elen = find_assign(upgma, "elen")
-    define("UPGMA_elen", ["min_distance"], elen.value, {"min_distance": "min_distance"})
+    define("UPGMA_elen", ["min_distance"], elen.value, None)
     cmpd = find_compare(upgma, "d")
     if not isinstance(cmpd.ops[0], ast.Lt) or ast.unparse(cmpd.comparators[0]) != "min_distance":
         raise Unsupported("upgma_tree: selection comparison is not `d < min_distance`")
@@ -1364,15 +1382,14 @@ def formulas(gen, nj, upgma):
     acc = [nd for nd in ast.walk(upgma) if isinstance(nd, ast.AugAssign) and ast.unparse(nd.target) == "d1"]
     if len(acc) != 1 or not isinstance(acc[0].op, ast.Add):
         raise Unsupported("upgma_tree: d1 accumulation")
-    define("UPGMA_acc", ["d1", "d2", "xc"], ast.BinOp(left=ast.Name(id="d1"), op=ast.Add(), right=acc[0].value),
-           {"d1": "d1", "d2": "d2", "xc": "xc"})
+    define("UPGMA_acc", ["d1", "d2", "xc"], ast.BinOp(left=ast.Name(id="d1"), op=ast.Add(), right=acc[0].value), None)
     return out
 
 
 HEADER = """(* GENERATED by py/dv/gen_pdm.py from calculate/phylogeneticdistance.py and
    datamodel/treemodel/_tree.py -- do not edit.  Meaning of the primitives: coq/Model/C14GenPrims.v *)
 From Coq Require Import ZArith QArith List Bool.
-From DV Require Import Model.PyPrims Model.Tree Model.C14Model Model.C14GenPrims.
+From DV Require Import Model.PyPrims Model.Tree Model.C14Model Model.C14GenPrims Model.C14GenObj Model.C14GenMrcaPrims.
 Import ListNotations.
 Open Scope Z_scope.
 Open Scope bool_scope.
@@ -1418,8 +1435,29 @@ def generate(repo):
     # Tree.mrca
     mrca_loop(gen, gen.find(tr, "Tree", "mrca"))
     text = HEADER + "\n" + "\n\n".join(gen.out) + "\n\nEnd Pdm.\n\n"
+    # Tree.mrca: argument handling and refresh; treemeasure.patristic_distance (py/dv/c14_mrcagen.py)
+    from dv import c14_mrcagen
+    try:
+        tm = gen.parse("calculate/treemeasure.py")
+        pdist = [n for n in tm.body if isinstance(n, ast.FunctionDef) and n.name == "patristic_distance"]
+        if len(pdist) != 1:
+            raise Unsupported("treemeasure.patristic_distance not found")
+        text += (c14_mrcagen.compile_mrca_head(gen.find(tr, "Tree", "mrca")) + "\n\n"
+                 + c14_mrcagen.compile_patristic(pdist[0]) + "\n\n")
+    except c14_mrcagen.Unsupported as e:
+        raise Unsupported("Tree.mrca / patristic_distance: %s" % e)
     text += "(* formulas of nj_tree / upgma_tree *)\n" + "\n".join(
         formulas(gen, gen.find(pd, cls, "nj_tree"), gen.find(pd, cls, "upgma_tree"))) + "\n"
+    # the main loops of upgma_tree / nj_tree as object-graph programs (py/dv/c14_objgen.py)
+    from dv import c14_objgen
+    try:
+        text += ("\n(* upgma_tree / nj_tree from `node_pool = []` on; original_dmatrix = the table the method selects,\n"
+                 "   mapped_taxa = list(self._mapped_taxa) in this process's iteration order *)\n"
+                 "Section TreeBuilders.\nVariable none_key : Z.\n\n"
+                 + c14_objgen.compile_tree_builder(gen.find(pd, cls, "upgma_tree"), "PDM_upgma_tree") + "\n\n"
+                 + c14_objgen.compile_tree_builder(gen.find(pd, cls, "nj_tree"), "PDM_nj_tree") + "\n\nEnd TreeBuilders.\n")
+    except c14_objgen.Unsupported as e:
+        raise Unsupported("tree builders: %s" % e)
     return text
 
 
